@@ -370,6 +370,29 @@ impl<T: ServiceStateActions + Send> ServiceManager<T> {
     }
 }
 
+/// Seam for an external simulator (off unless built with `--cfg maidsafe_safe_network_verif`): the node RPC
+/// client `refresh_node_registry` talks to. Thread-local; inert until a factory is installed.
+#[cfg(maidsafe_safe_network_verif)]
+pub mod verif {
+    use ant_service_management::rpc::RpcActions;
+    use std::cell::RefCell;
+    use std::net::SocketAddr;
+
+    type Factory = Box<dyn Fn(SocketAddr) -> Box<dyn RpcActions + Send>>;
+
+    thread_local! {
+        static FACTORY: RefCell<Option<Factory>> = const { RefCell::new(None) };
+    }
+
+    pub fn set_rpc_factory(factory: Option<Factory>) {
+        FACTORY.with(|f| *f.borrow_mut() = factory);
+    }
+
+    pub(crate) fn rpc_for(addr: SocketAddr) -> Option<Box<dyn RpcActions + Send>> {
+        FACTORY.with(|f| f.borrow().as_ref().map(|make| make(addr)))
+    }
+}
+
 pub async fn status_report(
     node_registry: &mut NodeRegistry,
     service_control: &dyn ServiceControl,
@@ -553,6 +576,14 @@ pub async fn refresh_node_registry(
         let mut rpc_client = RpcClient::from_socket_addr(node.rpc_socket_addr);
         rpc_client.set_max_attempts(1);
         let mut service = NodeService::new(node, Box::new(rpc_client.clone()));
+        #[cfg(maidsafe_safe_network_verif)]
+        let mut service = match verif::rpc_for(service.service_data.rpc_socket_addr) {
+            Some(rpc) => {
+                drop(service);
+                NodeService::new(node, rpc)
+            }
+            None => service,
+        };
 
         if is_local_network {
             // For a local network, retrieving the process by its path does not work, because the
